@@ -10,6 +10,13 @@ import numpy as np
 FS_CHOICES = (100, 128, 200, 250)
 
 
+def thorough():
+    """Deeper bounds for the thorough tier (plans are self-contained, so replay files do not
+    depend on the tier)."""
+    import os
+    return os.environ.get('VERIF_TIER') == 'thorough'
+
+
 def gen_band(rng, long=False):
     """Sampling rate, band and length shared by all signals of one array."""
     fs = rng.choice(FS_CHOICES)
